@@ -17,7 +17,8 @@ One Lean function per Go function, same order of checks:
 Scope of the model (what is a parameter, not modelled code):
 * the stream of the requesting connection carries no client id of its own (`extractClientID` = 0: no reader or
   stream type in the repository implements `GetClientID`), so no temporary control connection is created;
-* the tunnel state is the state *at arrival* (bridge map and routing table do not change during the request);
+* the tunnel state is the state *at arrival*, plus (`Late`) the bridge / waiting route that appears while a
+  request that found nothing at arrival is polling;
 * a bridge for tunnel id `t` exists only for a mapping that existed when it was created (`startSourceBridge`).
 -/
 namespace Tunnox.C04
@@ -149,8 +150,36 @@ bridge (never appears in a fixed tunnel state: times out without any ack); other
 def processCrossNodeForward (w : World) (node : String) : Outcome :=
   if node == w.nodeID then ⟨.none, .none, .pending⟩ else ⟨.ok, .forward node, .switch⟩
 
-/-- `SessionManager.handleTunnelOpen` (repaired order: authorise, then dispatch). -/
-def openTunnel (w : World) (id : ConnIdent) (req : Req) (ts : TunnelState) : Outcome :=
+/-- What appears for `req.TunnelID` WHILE a request that found nothing at arrival polls the routing table
+(`handleTargetBridge` → `handleCrossNodeTargetConnection` → `lookupTunnelRouting`). -/
+inductive Late
+  /-- nothing appears before the poll times out -/
+  | none
+  /-- a waiting route for the tunnel is registered by node `node` for `mappingID` (`startSourceBridge` on that
+  node); `bridgeAppears`: on this node the bridge itself is there too (it is registered before the route) -/
+  | route (mappingID : String) (node : String) (bridgeAppears : Bool)
+deriving DecidableEq, Repr
+
+/-- `handleLocalBridgeWait`: polls `tunnelBridges` (5 s); attaches as target when the bridge is there. -/
+def handleLocalBridgeWait (bridgeAppears : Bool) : Outcome :=
+  if bridgeAppears then ⟨.ok, .target, .switch⟩ else ⟨.ok, .none, .pending⟩
+
+/-- `processCrossNodeForward` reached from the poll (the success ack of `handleTunnelOpen` is already out):
+mapping comparison FIRST, then the "bridge is on this node" shortcut, else forward.  `forwardToSourceNode`
+returns the mode-switch error, which `handleTargetBridge` wraps into a plain error. -/
+def processCrossNodeForwardLate (w : World) (req : Req) (mappingID node : String) (bridgeAppears : Bool) : Outcome :=
+  if mappingID != req.MappingID then ⟨.ok, .none, .err⟩
+  else if node == w.nodeID then handleLocalBridgeWait bridgeAppears
+  else ⟨.ok, .forward node, .err⟩
+
+/-- `handleTargetBridge` when no bridge exists at arrival: poll the routing table until something appears. -/
+def handleTargetBridge (w : World) (req : Req) : Late → Outcome
+  | .none => ⟨.ok, .none, .pending⟩
+  | .route mappingID node bridgeAppears => processCrossNodeForwardLate w req mappingID node bridgeAppears
+
+/-- `SessionManager.handleTunnelOpen` (repaired order: authorise, then dispatch); `late` is what appears while
+the request polls (only looked at on the polling branch). -/
+def openTunnelDyn (w : World) (id : ConnIdent) (req : Req) (ts : TunnelState) (late : Late) : Outcome :=
   if !req.wellFormed then refuse
   else match findControlConnection id with
     | none => refuse
@@ -163,7 +192,11 @@ def openTunnel (w : World) (id : ConnIdent) (req : Req) (ts : TunnelState) : Out
           if mappingID != req.MappingID then refuse else processCrossNodeForward w node
         | .none =>
           if isSourceClient w clientConn req then ⟨.ok, .source, .switch⟩   -- handleSourceBridge → startSourceBridge
-          else ⟨.ok, .none, .pending⟩   -- handleTargetBridge: no bridge → polls the routing table until timeout
+          else handleTargetBridge w req late   -- no bridge: polls the routing table
+
+/-- The dispatcher when nothing changes while the request is handled. -/
+def openTunnel (w : World) (id : ConnIdent) (req : Req) (ts : TunnelState) : Outcome :=
+  openTunnelDyn w id req ts .none
 
 /-- The dispatcher as found (before the repair): an existing bridge or a waiting route is served *before*
 any credential check, for whatever connection names the tunnel id.  Kept to state the witnesses. -/
